@@ -28,4 +28,22 @@ structure Obj where
   end_ : Int
 deriving DecidableEq, Repr
 
+/-- an argument that is a string or a list of integers (`order`: "C", "F", or the axes) -/
+inductive StrOrList | str (s : String) | list (l : List Int)
+
+def eqStr : StrOrList → String → Bool
+ | .str s, t => s == t
+ | .list _, _ => false
+
+/-- the argument returned where a list is expected (a string returned as such is not modelled: the empty list) -/
+def asList : StrOrList → List Int
+ | .list l => l
+ | .str _ => []
+
+/-- `range(a, b, c)`: `ceil((b - a) / c)` items `a + c * i` (none when the step points away from `b`; step 0 - a ValueError in Python - gives none) -/
+def range3 (a b c : Int) : List Int :=
+  if c > 0 then (List.range ((b - a + c - 1) / c).toNat).map fun (i : Nat) => a + c * (i : Int)
+  else if c < 0 then (List.range ((a - b + (-c) - 1) / (-c)).toNat).map fun (i : Nat) => a + c * (i : Int)
+  else []
+
 end Py
